@@ -117,6 +117,46 @@ def findArms (dir : String) (s : Refs) (x : Nat) (f : Filter) (r : Option (Optio
                else (if (s.inv.get x).isSome then ",inv-entry-present" else ",inv-entry-absent")
   s!"{dir}-{filterTag f}-{res}" ++ viaSub ++ entry
 
+/-- parse `[a>t>b,c>u>d]` into (source, target, type) entries -/
+def parseTriples? (s : String) : Option (List (Nat × Nat × Nat)) :=
+  let inner := String.ofList ((s.toList.drop 1).dropLast)
+  if inner.isEmpty then some [] else
+  (inner.splitOn ",").mapM fun e =>
+    match e.splitOn ">" with
+    | [a, t, b] => match a.toNat?, t.toNat?, b.toNat? with
+      | some a, some t, some b => some (a, b, t)
+      | _, _, _ => none
+    | _ => none
+
+/-- parse `[node:t:inv,…]` into (node, type, inverse) entries of `References::insert` -/
+def parseEntries? (s : String) : Option (List (Nat × Nat × Bool)) :=
+  let inner := String.ofList ((s.toList.drop 1).dropLast)
+  if inner.isEmpty then some [] else
+  (inner.splitOn ",").mapM fun e =>
+    match e.splitOn ":" with
+    | [n, t, i] => match n.toNat?, t.toNat?, parseBool? i with
+      | some n, some t, some i => some (n, t, i)
+      | _, _, _ => none
+    | _ => none
+
+/-- arms of a batch insert: where the entries that exist already sit in the batch -/
+def batchArms (tag : String) (s : Refs) (l : List (Nat × Nat × Nat)) : String :=
+  let ex := l.map fun (a, b, t) => hasRef s a b t
+  let n := l.length
+  let size := if n = 0 then "empty" else if n = 1 then "one" else if n = 2 then "two" else "many"
+  let anyEx := ex.any id
+  let allEx := n > 0 && ex.all id
+  let first := ex.head?.getD false
+  let last := ex.getLast?.getD false
+  let middle := n > 2 && ((ex.drop 1).dropLast).any id
+  -- the case that matters: something new comes after something that exists
+  let newAfterExisting := (List.range n).any fun i => ex.getD i false && ((ex.drop (i + 1)).any fun e => !e)
+  let dupWithin := (List.range n).any fun i => (l.drop (i + 1)).contains (l.getD i (0, 0, 0))
+  s!"{tag}-{size}" ++ (if !anyEx && n > 0 then s!",{tag}-all-new" else "") ++ (if allEx then s!",{tag}-all-existing" else "") ++
+    (if first && n > 1 then s!",{tag}-existing-first" else "") ++ (if middle then s!",{tag}-existing-middle" else "") ++
+    (if last && n > 1 then s!",{tag}-existing-last" else "") ++
+    (if newAfterExisting then s!",{tag}-new-after-existing" else "") ++ (if dupWithin then s!",{tag}-repeated-in-batch" else "")
+
 def dstep (s : Refs) (toks : List String) : Refs × String :=
   match toks with
   | ["reset"] => (empty, "ok")
@@ -162,6 +202,22 @@ def dstep (s : Refs) (toks : List String) : Refs × String :=
       | some s' => (s', "ok " ++ obs s' ++ " @@ " ++ (if inv then "insd-inverse," ++ insArms s node src t else "insd-forward," ++ insArms s src node t))
       | none => (s, "panic @@ ins-self")
     | _, _, _, _ => (s, "bad-op")
+  | ["insrefs", l] =>
+    match parseTriples? l with
+    | some l =>
+      match insertRefs s l with
+      | some s' => (s', "ok " ++ obs s' ++ " @@ " ++ batchArms "insrefs" s l)
+      | none => (s, "panic @@ ins-self")
+    | none => (s, "bad-op")
+  | ["insmany", src, l] =>
+    match src.toNat?, parseEntries? l with
+    | some src, some l =>
+      match insertMany s src l with
+      | some s' => (s', "ok " ++ obs s' ++ " @@ " ++
+          batchArms "insmany" s (l.map fun (node, t, inv) => if inv then (node, src, t) else (src, node, t)) ++
+          (if l.any (fun e => e.2.2) then ",insmany-has-inverse" else "") ++ (if l.any (fun e => !e.2.2) then ",insmany-has-forward" else ""))
+      | none => (s, "panic @@ ins-self")
+    | _, _ => (s, "bad-op")
   | ["bydir", n, d, f] =>
     let dir : Option Dir := if d = "f" then some .forward else if d = "i" then some .inverse
       else if d = "b" then some .both else if d = "x" then some .invalid else none
